@@ -12,13 +12,13 @@ ID = "C17"
 LEVEL = "exploration"
 ANCHOR_FILES = ["aw_query/query2.py", "aw_query/functions.py"]
 REQUIRED_COUNTERS = ["texts_run", "class_mapping_checked", "activations_counted"]
-RULE = ("query texts of four kinds: (a) random text of length 0-80 over the token alphabet (letters, digits, _ \" ' ( ) "
+RULE = ("query texts of five kinds: (a) random text of length 0-80 over the token alphabet (letters, digits, _ \" ' ( ) "
         "[ ] { } , : = ; \\ . - #, space, newline, a few non-ASCII letters and digits); (b) valid generated programs "
         "with 1-3 random edits (delete / duplicate / swap / insert a character); (c) targeted shapes (blank and "
         "whitespace-only arguments, stray and doubled separators, unbalanced brackets and quotes, trailing commas); "
         "(d) single-fault programs with a known error class (unknown variable/function, too few/many arguments, "
         "wrong top-level argument type for every typed parameter of every built-in, unknown bucket - also one that existed "
-        "and was queried successfully before it was deleted -, curated malformed shapes). Each is run through aw_query.query with an activation budget; non-trivial = the text is "
+        "and was queried successfully before it was deleted -, curated malformed shapes); (e) long texts: one token of thousands of characters (digit runs straddling the interpreter's int-conversion limit, identifiers, strings, a run of one alphabet character), thousands of statements, and brackets / calls / dict values nested 30-1500 levels deep, balanced or not. Each is run through aw_query.query with an activation budget; non-trivial = the text is "
         "rejected or was corrupted; signature = (kind, outcome class, innermost raising function)")
 ASSUMPTIONS = ["an exception whose traceback runs the body of a built-in is outside the statement (counted, not judged)",
                "a malformed text that the interpreter accepts and evaluates satisfies 'yields a value' (counted as lenient_accept)",
@@ -168,8 +168,46 @@ def gen_case(rng, ctx):
         if rng.random() < 0.3:
             t = "x = 1; " + t
         return dict(kind="targeted", text=t)
+    if r < 0.836:
+        return dict(kind="long", text=long_text(rng))
     text, cls, fault = fault_programs(rng)
     return dict(kind="fault", text=text, expect=cls, fault=fault)
+
+
+_OPENERS = [("[", "]"), ("vp1(", ")"), ('{"a": ', "}"), ("[vp1(", ")]"), ("nop(", ")"), ("(", ")")]
+_POSITIONS = ["RETURN = {}", "RETURN = [1, {}]", "RETURN = vp1({})", 'RETURN = {{"k": {}}}', "x = {}; RETURN = x", "RETURN = vp2(1, [{}])"]
+
+
+def long_text(rng):
+    """texts whose length or nesting depth, not their shape, is the unusual thing: one token of thousands of characters
+    (digits straddling the interpreter's int-conversion limit, identifiers, strings, a run of one alphabet character),
+    thousands of statements, and brackets / calls / dict values nested up to a few thousand levels, balanced or not"""
+    import sys
+    k = rng.randrange(6)
+    lim = getattr(sys, "get_int_max_str_digits", lambda: 4300)() or 4300
+    if k == 0:
+        n = rng.choice([lim - 1, lim, lim + 1, lim + 700, 3 * lim, 100, 1000])
+        tok = rng.choice("123456789") + "".join(rng.choice("0123456789") for _ in range(n - 1))
+    elif k == 1:
+        n = rng.choice([300, 2000, 20000])
+        tok = rng.choice(["a", "_", "é", "x1"]) * n
+    elif k == 2:
+        n = rng.choice([300, 5000, 20000])
+        q = rng.choice("\"'")
+        tok = q + rng.choice(["x", " ", "\\\\", "é", ",", "[", "="]) * n + (q if rng.random() < 0.8 else "")
+    elif k == 3:
+        n = rng.choice([200, 1000, 4000])
+        tok = rng.choice(ALPHABET) * n
+    elif k == 4:
+        n = rng.choice([500, 3000])
+        return rng.choice(["a = 1;", "a=[1];", ";", "RETURN = 1;", "a = nop();"]) * n + rng.choice(["RETURN = a", "RETURN = 1", ""])
+    else:
+        depth = rng.choice([30, 200, 600, 900, 990, 1000, 1100, 1500])
+        o, c = rng.choice(_OPENERS)
+        inner = rng.choice(["1", "", '"s"', "[]", "x"])
+        closers = depth if rng.random() < 0.7 else rng.choice([0, depth - 1, depth + 1, depth // 2])
+        tok = o * depth + inner + c * closers
+    return rng.choice(_POSITIONS).format(tok)
 
 
 def run_case(case, ctx):
